@@ -566,6 +566,8 @@ def run(run):
     except AnalysisBroken as ex:
         run.broken('GIDCLAMP', 'getClassGlyph answers from inside the class', str(ex))
     from . import c19, ordint as O_
+    from . import effrules as ER_
+    ER_.advinit(run, fx, 'GIDCLAMP')      # 'every origin / advance is a finite number': a hinted font's advance cache starts fully initialised (shared with C08)
     inst_ = 'INSERT / DELETE leave a well-formed chain with exactly the one slot added / removed (handlers interpreted)'
     try:
         cases_, bad_ = handlers_exec(run, vm, 3)
